@@ -39,25 +39,27 @@ static uint32_t idval(int pdo, int k)
     uint32_t base = COB0(pdo);
     switch (k) { case 0: return base; case 1: return base | 0x80000000u; case 2: return base + 0x010; case 3: return (base + 0x010) | 0x80000000u; case 4: return base | 0x20000000u | 0x80000000u; default: return (base & ~0x40000000u) | 0x80000000u | (pdo ? 0 : 0x20000000u); }
 }
-static const char *cfg_name(int c) { static char b[64]; snprintf(b, sizeof b, "PDO pair #%d, %s", c < 2 ? 0 : c < 4 ? 1 : 3, c & 1 ? "started OPERATIONAL" : "PRE-OPERATIONAL"); return b; }
+static const char *cfg_name(int c) { static char b[64]; snprintf(b, sizeof b, "PDO pair #%d%s, %s", c < 2 ? 0 : c < 4 ? 1 : c < 6 ? 3 : 1, c >= 6 ? " (both synchronous)" : "", c & 1 ? "started OPERATIONAL" : "PRE-OPERATIONAL"); return b; }
 
 static int build(int cfg)
 {
     nc_defaults();
     NC.sync = 1; NC.sync_id = 0x80;
-    PN = cfg < 2 ? 0 : cfg < 4 ? 1 : 3;
+    int sync0 = cfg >= 6;          /* cfg 6, 7: the pair under reconfiguration (#1) starts with both PDOs synchronous (type 1): they share one SYNC table */
+    PN = cfg < 2 ? 0 : cfg < 4 ? 1 : cfg < 6 ? 3 : 1;
     NC.n_rpdo = 4; NC.n_tpdo = 4;
     for (int i = 0; i < 4; i++) {
         NC.rpdo[i].present = 1; NC.rpdo[i].cobid = COBASE[0] + 0x100u * (uint32_t)i; NC.rpdo[i].type = 255; NC.rpdo[i].nmap = 1; NC.rpdo[i].map[0] = i == PN ? M8 : M16;
         NC.tpdo[i].present = 1; NC.tpdo[i].cobid = COBASE[1] + 0x100u * (uint32_t)i; NC.tpdo[i].type = 254; NC.tpdo[i].nmap = 1; NC.tpdo[i].map[0] = i == PN ? M8 : M16;
     }
     NC.tpdo[PN].event = 2;
+    if (sync0) { NC.rpdo[PN].type = 1; NC.tpdo[PN].type = 1; }
     NC.operational = cfg & 1;
     nc_build();
     (void)CONodeGetErr(&Node);
     memset(&M, 0, sizeof M);
     M.op = (uint8_t)(cfg & 1);
-    for (int i = 0; i < 2; i++) { M.p[i].cob = COB0(i); M.p[i].type = (uint8_t)(i ? 254 : 255); M.p[i].count = 1; M.p[i].map[0] = M8; }
+    for (int i = 0; i < 2; i++) { M.p[i].cob = COB0(i); M.p[i].type = (uint8_t)(sync0 ? 1 : i ? 254 : 255); M.p[i].count = 1; M.p[i].map[0] = M8; }
     W_REG(M);
     return E_N;
 }
@@ -157,6 +159,13 @@ static void probe_time(const char *when)
     n = nc_count_tx(p->cob & 0x7FF);
     if (p->type <= 240 && n != 0) mc_fail("pdo-activation-differs", "%s: TPDO #%d is stored with the synchronous type %d but sent %d frame(s) within 8 ticks without any SYNC", when, PN, p->type, n);
     else if (p->type >= 254 && n == 0) mc_fail("pdo-activation-differs", "%s: TPDO #%d is stored as event-driven (type %d, event time 2 ms) but stayed silent for 8 ticks", when, PN, p->type);
+    else if (p->type == 1) {                       /* ... and a SYNC must produce exactly one frame of a type-1 TPDO (the SYNC table is shared with the RPDO of the same number) */
+        uint8_t none[8] = { 0 };
+        OBS.ntx = 0; OBS.ncb = 0;
+        w_rx(&Node, 0x80, 0, none);
+        n = nc_count_tx(p->cob & 0x7FF);
+        if (n != 1) mc_fail("pdo-activation-differs", "%s: TPDO #%d is stored valid with type 1 but a SYNC produces %d frame(s) of it", when, PN, n);
+    }
     w_restore(snap);
     OBS.ntx = 0; OBS.ncb = 0;
 }
@@ -225,13 +234,15 @@ static int one_write(int e, int pdo, int kind, int sub, uint32_t val)
       if (r == 0) *p = next;
       if (r == 0 && revalidated && M.op) { if (pdo) { probe_tpdo("re-validation while OPERATIONAL"); probe_time("re-validation while OPERATIONAL"); } else probe_rpdo("re-validation while OPERATIONAL"); }
       if (r == 0 && kind == 0 && !valid(p) && M.op) { if (probe_invalid(pdo, "invalidation while OPERATIONAL", old_id)) return 1; }
-      if (kind == 0 && M.op) { if (probe_bystanders(r == 0 ? "after an accepted COB-ID write" : "after a refused COB-ID write")) return 1; } }
+      if (kind == 0 && M.op) { if (probe_bystanders(r == 0 ? "after an accepted COB-ID write" : "after a refused COB-ID write")) return 1; }
+      if (r == 0 && kind == 0 && pdo == 0 && M.op && valid(&M.p[1])) probe_time("after a COB-ID write of the RPDO with the same number"); }
     return 0;
 }
 
 static int step(int e)
 {
-    if (e == E_START) { int was = M.op; M.op = 1; STOPPED = 0; nc_nmt(1, 0); if (!was) { if (valid(&M.p[1])) { probe_tpdo("entering OPERATIONAL"); probe_time("entering OPERATIONAL"); } if (valid(&M.p[0])) probe_rpdo("entering OPERATIONAL"); (void)probe_bystanders("entering OPERATIONAL"); } }
+    if (e == E_START) { int was = M.op; M.op = 1; STOPPED = 0; nc_nmt(1, 0); if (!was) { if (valid(&M.p[1])) { probe_tpdo("entering OPERATIONAL"); probe_time("entering OPERATIONAL"); } if (valid(&M.p[0])) probe_rpdo("entering OPERATIONAL"); (void)probe_bystanders("entering OPERATIONAL"); }
+        else if (valid(&M.p[1])) probe_time("NMT start while OPERATIONAL"); }
     else if (e == E_PREOP) { M.op = 0; STOPPED = 0; nc_nmt(128, 0); }
     else if (e == E_STOP) { M.op = 0; STOPPED = 1; nc_nmt(2, 0); }        /* entering OPERATIONAL from STOPPED activates the stored configuration like any other entry */
     else if (STOPPED) return MC_SKIP;                                    /* no SDO service in STOPPED */
@@ -258,5 +269,5 @@ static int step(int e)
     return MC_OK;
 }
 
-static const mc_harness H = { "C14", "c14", 6, cfg_name, build, ev_name, step, 12, 5 };
+static const mc_harness H = { "C14", "c14", 8, cfg_name, build, ev_name, step, 12, 5 };
 int main(int argc, char **argv) { return mc_main(argc, argv, &H); }
